@@ -23,7 +23,7 @@ KNOWN_ORDER = "stash-order:held-messages-reordered-across-rounds"
 KNOWN_TAINT = "counters:cancelInFlightRequests-inside-completeRequest"
 
 THEOREMS = ["C16_complete_once", "C16_counters_exact_refuted", "C16_inflight_limit_refuted", "C16_counters_exact_partial",
-            "C16_counters_zero_after_reset", "C16_stash_mode_isolation_refuted", "C16_stash_mode_isolation_partial",
+            "C16_counters_exact_repaired", "C16_stash_mode_isolation_repaired", "C16_counters_zero_after_reset", "C16_stash_mode_isolation_refuted", "C16_stash_mode_isolation_partial",
             "C16_stash_order_refuted", "C16_stash_order_partial"]
 
 # ------------------------------------------------------------------------------------------ corpus
@@ -44,7 +44,7 @@ CORPUS = [
     ("cancel twice, cancel after completion, cancel racing reply", 2,
      [[O_REQUEST, 0, 0], [O_REQUEST, 1, 0], [O_THEN, 1, 0], [O_CANCEL, 0, 0], [O_CANCEL, 0, 0], [O_REPLY, 1, 1], [O_CANCEL, 1, 0], D, F, D, F, D, F, [O_CANCEL, 1, 0], [O_THEN, 0, 0]]),
     ("two blocking requests: release only when the last one completes", 0,
-     [[O_REQUEST, 1, 0], [O_REQUEST, 1, 0], [O_REQUEST, 0, 0], [O_ARRIVE, 0, 0], [O_ARRIVE, 0, 0], D, [O_REPLY, 0, 1], D, D, F, [O_CTL, 0, 0], D, [O_REPLY, 2, 1], D, F, D,
+     [[O_REQUEST, 1, 0], [O_REQUEST, 1, 0], [O_REQUEST, 0, 0], [O_ARRIVE, 0, 0], [O_ARRIVE, 1, 0], D, [O_REPLY, 0, 1], D, D, F, [O_CTL, 0, 0], D, [O_REPLY, 2, 1], D, F, D,
       [O_REPLY, 1, 2], D, F, D, D, D]),
     ("in-flight limit boundary", 2,
      [[O_REQUEST, 0, 0], [O_REQUEST, 1, 0], [O_REQUEST, 0, 0], [O_REQUEST, 1, 0], [O_REPLY, 1, 1], D, F, [O_REQUEST, 0, 1], [O_REQUEST, 0, 0], [O_CANCEL, 0, 0], D, F, [O_REQUEST, 1, 0], [O_REQUEST, 1, 0]]),
@@ -92,7 +92,7 @@ def gen_case(rng, profile):
                 kind = k
                 break
         if kind == "arrive":
-            ops.append([O_ARRIVE, 0, 0]); g.mbox += 1
+            ops.append([O_ARRIVE, 1 if rng.random() < 0.25 else 0, 0]); g.mbox += 1   # 1: wrapped in an AsyncRequest envelope
         elif kind == "request":
             stash = 1 if rng.random() < 0.5 else 0
             ops.append([O_REQUEST, stash, 1 if rng.random() < 0.35 else 0])
@@ -219,11 +219,13 @@ def run(ctx):
         if os.path.exists(p):
             os.remove(p)
 
+    ctx.log("generated %d cases; running the Go harness" % len(cases))
     rc, out = ctx.go_test("actor", "^TestVerifC16", ["zz_verif_C16_test.go"], timeout=1500 if ctx.thorough else 600, race=False)
     outs = read_jsonl(os.path.join(ctx.work, "c16_ops_out.jsonl"))
     stress = read_jsonl(os.path.join(ctx.work, "c16_stress_out.jsonl"))
     race = read_jsonl(os.path.join(ctx.work, "c16_race_out.jsonl"))
     wit = read_jsonl(os.path.join(ctx.work, "c16_witness_order.jsonl"))
+    ctx.log("harness done rc=%d" % rc)
     harness_ok = rc == 0 and len(outs) == len(cases) and stress and race and wit
     if not harness_ok:
         ctx.tie_broken("go-harness actor TestVerifC16*", out[-4000:])
@@ -232,6 +234,8 @@ def run(ctx):
 
     # ---------------------------------------------------------------- model vs implementation (Coq evaluates the model)
     verdicts = None
+    zeroing = True
+    policy = None
     if outs:
         items = []
         for c, o in zip(cases, outs):
@@ -245,17 +249,28 @@ From GV Require Import C16.Model.
 Open Scope Z_scope.
 Definition cases : list (Z * list op * list (option obs)) := [
 %s].
-Definition verdicts := map (fun c => match c with (mx, ops, ex) => check_case mx ops ex end) cases.
-Eval vm_compute in verdicts.
+Definition has_cif (ops : list op) := existsb (fun o => match o with OCancelInFlight => true | _ => false end) ops.
+Definition verdicts (z : bool) := map (fun c => match c with (mx, ops, ex) =>
+  if z || has_cif ops then check_case z mx ops ex else (-2, -2, -2) end) cases.
+Eval vm_compute in (verdicts true).
+Eval vm_compute in (verdicts false).
 """ % ";\n".join(items)
+        ctx.log("evaluating the Coq model on the recorded cases")
         ok_m, out_m = ctx.coq_build(["theories/C16/Model.vo"])
         rc2, o2 = ctx.coq_eval("cases_C16", body) if ok_m else (1, out_m)
         flat = " ".join(o2.split())
-        trip = re.findall(r"\(\s*(-?\d+), (-?\d+), (-?\d+)\)", flat.split("= [", 1)[1]) if rc2 == 0 and "= [" in flat else []
-        if rc2 != 0 or len(trip) != len(cases):
+        parts = flat.split("= [")[1:] if rc2 == 0 else []
+        both = [[(int(a), int(b), int(c)) for a, b, c in re.findall(r"\(\s*(-?\d+), (-?\d+), (-?\d+)\)", p_)] for p_ in parts]
+        if rc2 != 0 or len(both) != 2 or any(len(v) != len(cases) for v in both):
             ctx.tie_broken("model evaluation (cases.v did not evaluate)", o2[-3000:])
         else:
-            verdicts = [(int(a), int(b), int(c)) for a, b, c in trip]
+            both[1] = [a if b[0] == -2 else b for a, b in zip(both[0], both[1])]   # the policies differ only on cancelInFlightRequests
+            # which cancelInFlightRequests does this tree implement: zeroing (as found) or not (repaired)?
+            miss = [sum(1 for v in vs if v[0] >= 0) for vs in both]
+            zeroing = miss[0] <= miss[1]
+            verdicts = both[0] if zeroing else both[1]
+            policy = "zeroing (cancelInFlightRequests stores 0 into the counters)" if zeroing else "no zeroing (repaired)"
+            ctx.notes.append("cancelInFlightRequests policy matched by the implementation: %s; mismatching cases under [zeroing, no-zeroing] = %s" % (policy, miss))
 
     # ---------------------------------------------------------------- classify the oracle's complaints
     reported = set()
@@ -301,8 +316,8 @@ Eval vm_compute in verdicts.
         body2 = """From Coq Require Import ZArith List Bool. Import ListNotations.
 From GV Require Import C16.Model.
 Open Scope Z_scope.
-Eval vm_compute in (nth %d (trace (init %s) [%s]) (observe (init 0))).
-""" % (step, zlit(cases[ci]["Max"]), "; ".join(op_coq(x) for x in cases[ci]["Ops"]))
+Eval vm_compute in (nth %d (trace %s (init %s) [%s]) (observe (init 0))).
+""" % (step, "true" if zeroing else "false", zlit(cases[ci]["Max"]), "; ".join(op_coq(x) for x in cases[ci]["Ops"]))
         _, o3 = ctx.coq_eval("cases_C16_diff", body2)
         detail["model_expects"] = " ".join(o3.split())[-900:]
         if not any(f.kind == "violation" and f.signature not in known_seen for f in ctx.findings):
@@ -331,6 +346,7 @@ Eval vm_compute in (nth %d (trace (init %s) [%s]) (observe (init 0))).
             ctx.violation("register-race:limit", "concurrent registerRequestState: " + m, {"driver": "TestVerifC16RegisterRace", "detail": r})
 
     # ---------------------------------------------------------------- the theorems
+    ctx.log("model evaluated; building Properties/C16.vo")
     if not ctx.coq_property():
         if not any(f.kind == "violation" and f.signature not in known_seen for f in ctx.findings):
             ctx.proof_broken("Properties/C16.v (%s)" % getattr(ctx, "failed_at", "?"), getattr(ctx, "coq_log", ""))
@@ -338,6 +354,7 @@ Eval vm_compute in (nth %d (trace (init %s) [%s]) (observe (init 0))).
             ctx.notes.append("Coq obligation broken at %s; concrete failing input reported" % getattr(ctx, "failed_at", "?"))
 
     # ---------------------------------------------------------------- coverage
+    ctx.log("theorems checked")
     hist = {}
     steps = 0
     nontrivial = set()
@@ -361,7 +378,7 @@ Eval vm_compute in (nth %d (trace (init %s) [%s]) (observe (init 0))).
         "cases": len(cases), "corpus_cases": n_corpus, "steps_compared_with_model": sum(1 for o in outs for x in o["Obs"] if not x.get("skip")),
         "op_histogram": hist, "model_mismatching_cases": len(mismatches) if verdicts else None,
         "model_tainted_cases": sum(1 for v in (verdicts or []) if v[1] >= 0), "model_overtaken_cases": sum(1 for v in (verdicts or []) if v[2] == 1),
-        "oracle_complaint_kinds": kinds, "known_finding_hits": known_seen,
+        "oracle_complaint_kinds": kinds, "known_finding_hits": known_seen, "cancel_in_flight_policy": policy,
         "stress_totals": st_tot, "register_race": [{k: v for k, v in r.items() if k != "Violations"} for r in race],
         "samples": [{"ops": pretty_ops(cases[i]["Ops"])[:14], "max": cases[i]["Max"]} for i in (0, 1, n_corpus, min(len(cases) - 1, n_corpus + 1))],
         "theorems": THEOREMS,
